@@ -21,7 +21,7 @@ Files == [inc |-> Probe \o <<Set("a", Lit(I(8))), Set("q", Lit(I(1)))>> \o Probe
 
 \* the constructs: Wrap(k, body) puts body inside construct k, with probes before and after
 Kinds == <<"with_a", "with_b", "with_ab", "with_a_from_b", "for_a", "for_b", "macro_a", "macro_0", "if", "set_a", "set_b",
-           "include", "include_only", "autoescape", "filtertag", "ifchanged", "spaceless_like_if">>
+           "include", "include_only", "autoescape", "filtertag", "ifchanged", "spaceless_like_if", "macro_ab_omit", "macro_g_omit">>
 
 Wrap(k, body) ==
   CASE k = "with_a" -> << [t |-> "with", pairs |-> <<[name |-> "a", e |-> Lit(I(1))]>>, body |-> body] >>
@@ -34,6 +34,11 @@ Wrap(k, body) ==
                            Out([t |-> "call", name |-> "m1", args |-> <<Lit(I(5))>>]) >>
     [] k = "macro_0" -> << [t |-> "macro", name |-> "m0", params |-> <<>>, body |-> body, export |-> FALSE],
                            Out([t |-> "call", name |-> "m0", args |-> <<>>]) >>
+    \* parameters the call leaves out (no default): they are bound - to nothing - inside the macro and hide whatever the name means outside
+    [] k = "macro_ab_omit" -> << [t |-> "macro", name |-> "m2", params |-> <<[name |-> "b", def |-> NoDef], [name |-> "a", def |-> NoDef]>>, body |-> body, export |-> FALSE],
+                                 Out([t |-> "call", name |-> "m2", args |-> <<Lit(I(5))>>]), Out([t |-> "call", name |-> "m2", args |-> <<>>]) >>
+    [] k = "macro_g_omit" -> << [t |-> "macro", name |-> "m3", params |-> <<[name |-> "g", def |-> NoDef], [name |-> "gg", def |-> Var(<<"g">>)]>>, body |-> body, export |-> FALSE],
+                                Out([t |-> "call", name |-> "m3", args |-> <<>>]) >>
     [] k = "if" -> << [t |-> "if", conds |-> <<Lit(I(1))>>, bodies |-> <<body>>] >>
     [] k = "set_a" -> <<Set("a", Lit(I(6)))>> \o body
     [] k = "set_b" -> <<Set("b", Var(<<"a">>))>> \o body
@@ -62,7 +67,8 @@ ApiProgs == << Probe,
 VARIABLES prog, go, actx, aglob
 NestInit ==
   /\ \E k1 \in 1..Len(Kinds), k2 \in 1..Len(Kinds), k3 \in 1..Len(Kinds), inn \in 1..Len(Innermost) :
-        /\ (Family = "d2" => k3 = 9)        \* depth 2: the innermost construct is the transparent `if`
+        /\ (Family \in {"d2", "incl"} => k3 = 9)        \* depth 2: the innermost construct is the transparent `if`
+        /\ (Family = "incl" => Kinds[k2] \in {"include", "include_only"})   \* (C11) what an included template sees, from inside every construct
         /\ prog = <<TopMacro>> \o Probe \o Wrap(Kinds[k1], Probe \o Wrap(Kinds[k2], Probe \o Wrap(Kinds[k3], Innermost[inn]) \o Probe) \o Probe) \o Probe
 Init ==
   /\ go = FALSE
